@@ -45,7 +45,7 @@ CLAIMED = {
          "Calendars with holidays, exact gaps of 5-12 days, gaps across New Year, empty years and malformed observations are served as valet JSON; look-ups at gap edges, year edges and around today, and rows with every currency/rate combination, must get exactly the documented rate or an error.",
          "The fake endpoint follows the documented JSON schema; network-level failures are not explored.", "DESIGN.md section 4 C12"),
  "C13": ("exploration", "model-based (stateful) property-based testing: histories of runs and look-ups against a cache-free reference loader",
-         "Sequences of runs (own today, force flag, monotone remote data) and look-ups in any order share an in-memory cache and a real CSV cache directory; every answer must equal the answer of a fresh cache-free loader; downloads per (run, year) are counted. A second sub-check forces the download over a cache that holds a wrong value for every date: each look-up, in whatever year, must answer with the bank's rate.",
+         "Sequences of runs (own today, force flag, monotone remote data) and look-ups in any order share an in-memory cache and a real CSV cache directory; every answer must equal the answer of a fresh cache-free loader; downloads per (run, year) are counted.",
          "The remote always contains everything published before the run's today (premise of the property).", "DESIGN.md section 4 C13"),
  "C14": ("fault_enumeration", "exhaustive crash-point enumeration through feature-gated hooks (every byte offset and step boundary of the cache write) over generated year contents",
          "For each generated year content and prior cache state the write is interrupted at every byte offset and every step (create, flush, sync, rename); a later run must never compute with a rate differing from the published one: every post-crash answer is compared, date and rate, with the answer of a run that has no cache directory. Multi-run variants: crash then a shorter complete write, two crashes in a row, a crash then a complete run that only needs another year, first downloads of a completed year.",
